@@ -361,7 +361,12 @@ func (w *WaitTask) StatusUpdate(taskContext *TaskContext, id object.ObjMetadata)
 		// If a failed resource becomes current before other
 		// resources have completed/timed out, we consider it
 		// current.
-		if w.reconciledByID(taskContext, id) {
+		if w.changedUID(taskContext, id) {
+			// replaced since it was applied/deleted - same handling as for
+			// pending objects: the new object's status never reconciles it
+			w.handleChangedUID(taskContext, id)
+			w.failed = w.failed.Remove(id)
+		} else if w.reconciledByID(taskContext, id) {
 			// reconciled - remove from pending & send event
 			err := taskContext.InventoryManager().SetSuccessfulReconcile(id)
 			if err != nil {
